@@ -198,7 +198,7 @@ func genCase(t *rapid.T) Case {
 	if rapid.IntRange(0, 2).Draw(t, "note") == 0 {
 		p.Root.Note = rapid.SampledFrom([]string{"a note", "x - y", "123"}).Draw(t, "notev")
 	}
-	lay := gen.Layout(t, gen.LayoutOpts{})
+	lay := gen.Layout(t, gen.LayoutOpts{Esc: 2})
 	lay.Trail = rapid.SampledFrom([]int{0, 0, 0, 1}).Draw(t, "trail")
 	sp := p.Text(lay)
 	nl, tr := trailers(t)
